@@ -4,8 +4,8 @@ from the source.  Here (runtime clauses no model can exhibit):
   (i)   interleavings of API calls in one process vs each call in a fresh interpreter, bit-for-bit;
   (ii)  the same under different PYTHONHASHSEED values;
   (iii) C-/Fortran-ordered, transposed, sliced, negatively strided array arguments give equal results;
-  (iv)  arguments are bit-for-bit unchanged and integrators return a fresh array.
-K: the Lean memo model vs the real caches (hit/miss sequences)."""
+  (iv)  arguments are bit-for-bit unchanged and integrators return a fresh array (incl. demes calls on ancient-sample routes).
+K: the Lean memo model vs the real caches (hit/miss sequences); the Lean alias-flow model vs the observed effects of the demes front end."""
 import os, sys, subprocess, itertools, copy
 import numpy as np
 from . import common, gen
@@ -1163,11 +1163,18 @@ def run(chk, ctx):
                 'tiny parameters), likelihoods and residuals (plain, folded, masked, unmasked corners, integer data, strided), objective functions, optimisers (2 iterations), '
                 'perturb_params / _project_params and list-taking Spectrum methods: every sequence argument in turn as list, tuple, float64 array, strided float64 view, list of numpy '
                 'scalars, int64 array, int list: deep byte snapshot of ALL arguments before/after, second call with the same objects bit-identical, value equal to the float-list call. '
-                'K: real memo tables vs the Lean table model (Driver/Memo.lean) on histories base / one-input-changed / base. non-trivial = distinct (clause, function, option, argument, container) keys')
+                '(iv\'\') demes calls: Demes.SFS / Spectrum.from_demes on 22 routes (present-day, zero times given, ancient sample given, same deme twice, all ancient / sliced, sampled deme '
+                'extinct with sample_times=None, graphs in years, pulse, admixture, merger) x options x pts scalar / list, every sequence argument as list / tuple / int64 / strided / float64 / '
+                'numpy-scalar list, graph included in the snapshot, second call with the same objects (spectrum, mask, pop_ids); DemesUtil.slice / swipe; Demes.output of a recorded program '
+                '(deme_ids lists, deme_mapping dicts, units) and output(second) alone vs after output(first) for all ordered pairs of five argument sets. '
+                'K: real memo tables vs the Lean table model (Driver/Memo.lean) on histories base / one-input-changed / base; parameters observed to be modified on ten functions of the demes '
+                'front end vs the parameters the Lean alias-flow analysis of the regenerated skeletons predicts (c20.flow). non-trivial = distinct (clause, function, option, argument, container) keys')
     chk.unproved = ['hash-seed independence, memory-layout independence, object identity and aliasing are runtime facts: monitored (L3), not provable in a pure model',
-                    'the effect table is a conservative syntactic analysis (tools/gen_Effects.py: alias roots through asarray/ravel/reshape/array(copy=False)/masked-array constructors, nested functions '
-                    'and closure variables, interprocedural summaries within the audited modules), not a semantic proof; dynamic dispatch, loop variables bound to elements and C-level writes are '
-                    'covered by the byte comparisons only']
+                    'the effect table is a conservative syntactic analysis (tools/gen_Effects.py: path-sensitive forward data flow of alias roots through asarray/ravel/reshape/array(copy=False)/'
+                    'masked-array constructors, nested functions and closure variables, function tables and make_extrap_func wrappers, interprocedural modified-parameter and returned-alias summaries '
+                    'within the audited modules), not a semantic proof: the may-alias analysis is proved sound for the control-flow skeletons (C20_flow_sound) and the skeletons of the demes front end '
+                    'are analysed in Lean too, but the extraction of a skeleton from the Python source is trusted; dynamic dispatch other than literal function tables, loop variables bound to '
+                    'elements and C-level writes are covered by the byte comparisons only']
     chk.assumptions.append('fresh-interpreter reference runs use the same scratch build of dadi')
     layout_isolated(chk, ctx, tier)
     k_memo(chk, ctx, rng)
